@@ -199,6 +199,16 @@ func (r *Run) resolve(d Desc) string {
 		return r.account(d.U).PID
 	case "pw":
 		return r.account(d.U).Password
+	case "pw72", "pw78":
+		// a password of exactly 72 bytes (all bcrypt reads) and the same with a suffix: policy-conformant, fixed per account
+		p := "Pw7!" + d.U + "-"
+		for len(p) < 72 {
+			p += "abcdefghijklmnopqrstuvwxyz"[len(p)%26 : len(p)%26+1]
+		}
+		if d.K == "pw78" {
+			p += "-2024!"
+		}
+		return p
 	case "mailtok":
 		return pick(r.mailsFor(r.account(d.U).PID, d.Kind), d.I)
 	case "smscode":
